@@ -75,3 +75,16 @@ Qed.
 
 Lemma in_app3 {A} (x : A) pre y post : In x (pre ++ y :: post) <-> In x pre \/ x = y \/ In x post.
 Proof. rewrite in_app_iff. simpl. intuition. Qed.
+
+Lemma insert_sorted_in x l y : In y (insert_sorted x l) <-> y = x \/ In y l.
+Proof.
+  induction l as [|z t IH]; simpl; [intuition|].
+  destruct (N.ltb (snd x) (snd z)); simpl; [intuition|]. rewrite IH. intuition.
+Qed.
+Lemma sort_ins_in l y : In y (sort_ins l) <-> In y l.
+Proof.
+  unfold sort_ins. assert (G : forall acc, In y (fold_left (fun acc x => insert_sorted x acc) l acc) <-> In y acc \/ In y l).
+  { induction l as [|x t IH]; simpl; intro acc; [intuition|]. rewrite IH. rewrite insert_sorted_in. intuition. }
+  rewrite G. simpl. intuition.
+Qed.
+
